@@ -1,34 +1,49 @@
 (* C04 -- the frames an endpoint sends follow the RFC 9174 grammar.
 
    Model: Model/TcpclSess.v (ep, step, run); [sent s] is the sequence of
-   frames given to Messenger.send_message, [wire s], [conn_tx s], [msg_tx s]
-   the octets written to the socket / buffered in the two transmit buffers.
-   All theorems hold for EVERY configuration and EVERY operation list (every
-   schedule, chunking, back-pressure pattern, user call position, and
-   arbitrary received octets).
+   frames given to Messenger.send_message, [handled s] the frames given to
+   recv_message, [wire s], [conn_tx s], [msg_tx s] the octets written to the
+   socket / buffered in the two transmit buffers.  All theorems hold for EVERY
+   configuration and EVERY operation list (every schedule of the event loop,
+   chunking of reads, back-pressure pattern of writes, user call position, and
+   ARBITRARY received octets) unless a hypothesis says otherwise.
 
-   Proved so far (Group 1):
+   Group 1
      C04_sent_accounting   the octets written or buffered are exactly the
                            encodings of the frames of [sent s], in order;
      C04_step_mono         [sent], [wire], [trace], [handled] only grow.
-
-   (2a) C04_contact_first / C04_contact_first_map   exactly one contact
-                           header, and it is the first frame;
-   (2b) C04_sess_term_once at most one SESS_TERM; [in_term] iff one was sent.
-
-   (2c) no START segment after SESS_TERM.  The FULL-STRENGTH statement
-          sent s = pre ++ FMsg (MSessTerm fl r) :: post -> no START segment in post
-        is FALSE for the model as for the code: C04_no_start_after_term_refuted
-        (peer announces segment MRU 0: every _process_queue pass sends another
-        START segment with no data and never advances, also after SESS_TERM;
-        file.read(0) returns b'').  Proved instead: C04_no_start_after_term_partial,
-        the statement under the hypothesis that the segment size in use is
-        positive in every state of the run in which the session is established.
-
-   NOT YET PROVED (in progress, statements as in the work order):
-     sess_init_active / sess_init_passive
-     (2d), C04_grammar_active / C04_grammar_passive / C04_pair (2e),
-     seg_within_mru (2f), ack_echo (2g). *)
+   Group 2
+     (2a) C04_contact_first / C04_contact_first_map  exactly one contact header, first;
+     (2b) C04_sess_term_once   at most one SESS_TERM; [in_term] iff one was sent;
+     (2c) no START segment after SESS_TERM.  The FULL-STRENGTH statement
+            sent s = pre ++ FMsg (MSessTerm fl r) :: post -> no START segment in post
+          is FALSE for the model as for the code: C04_no_start_after_term_refuted
+          (segment size 0 -- peer announces segment MRU 0, or
+          segment_size_tx_initial = 0, or the merge of the session settings fails
+          after _in_sess was set: every _process_queue pass sends another START
+          segment with no data and never advances, also after SESS_TERM;
+          file.read(0) returns b'').  Proved: C04_no_start_after_term_partial,
+          under the hypothesis that the segment size in use is positive in every
+          state of the run in which the session is established;
+     (2d) C04_sess_init_active   an active endpoint sends at most one SESS_INIT,
+          and it is its second frame, whatever the peer does;
+          C04_sess_init_passive  a passive endpoint sends exactly one SESS_INIT per
+          SESS_INIT handled, and its first message is SESS_INIT if the first
+          message it handled is;
+     (2e) the grammar [legal] / [legal_prefix] (Proofs/TcpclSentProofs11.v: contact
+          header; SESS_INIT; then XFER_SEGMENT / XFER_ACK / XFER_REFUSE /
+          KEEPALIVE / MSG_REJECT, at most one SESS_TERM, no START segment after
+          it; and every prefix thereof, C04_legal_prefix_spec).
+          C04_grammar_active_weak / C04_grammar_passive_weak / C04_pair_weak: the
+          grammar without the START-after-SESS_TERM clause, unconditionally (for the
+          passive side: for a cooperating peer, which an active endpoint is);
+          C04_grammar_active_partial / C04_grammar_passive_partial / C04_pair_partial:
+          the full grammar under the positive-segment-size hypothesis of (2c);
+     (2f) C04_seg_within_mru  if at most one SESS_INIT was handled, every segment
+          sent carries at most the announced segment MRU of data octets;
+     (2g) C04_ack_echo  UNCONDITIONALLY the XFER_ACKs sent are exactly those owed
+          for the handled frames ([ack_spec]: flags octet, transfer id and
+          cumulative length of every acceptable segment, in order). *)
 From Coq Require Import List NArith Bool.
 Import ListNotations.
 From DTN Require Import Lib.Bytes Model.TcpclMsg Model.TcpclSess Proofs.TcpclSentProofs.
@@ -80,22 +95,123 @@ Theorem C04_no_start_after_term_refuted :
 Proof. exact no_start_after_term_refuted. Qed.
 Print Assumptions C04_no_start_after_term_refuted.
 
-(* Non-vacuity of the hypothesis of the partial statement: a run with a
-   positive segment size that sends SESS_TERM with a transfer in progress. *)
-Example C04_partial_nonvacuous :
-  let c := mkCfg false [100] 30 60 1000 2 None in
-  let ops := [OStart; ORx (encode_frame (FContact (mkContact MAGIC 4 0)));
-              ORx (encode_frame (FMsg (MSessInit 30 2 1000 [100] []))); OSend [1;2;3]; OPQ; OTerm 0;
-              OSend [4]; OPQ] in
-  forallb (fun k => let s := run c (firstn k ops) in negb (in_sess s) || (0 <? seg_size s)) (seq 0 9) = true
-  /\ existsb (fun f => match f with FMsg (MSessTerm _ _) => true | _ => false end) (sent (run c ops)) = true.
-Proof. vm_compute. split; reflexivity. Qed.
+Theorem C04_sess_init_active : forall (c : cfg) (ops : list op), c_passive c = false ->
+  let s := run c ops in
+  (length (filter (fun f => match f with FMsg (MSessInit _ _ _ _ _) => true | _ => false end) (sent s)) <= 1)%nat
+  /\ (forall f1 f2 rest, sent s = f1 :: f2 :: rest ->
+        exists ka mru xm nid ext, f2 = FMsg (MSessInit ka mru xm nid ext))
+  /\ (forall f1 f2 rest, sent s = f1 :: f2 :: rest ->
+        length (filter (fun f => match f with FMsg (MSessInit _ _ _ _ _) => true | _ => false end) rest) = 0%nat).
+Proof. exact sess_init_active. Qed.
+Print Assumptions C04_sess_init_active.
 
-(* Non-vacuity: a run in which frames are sent and octets reach the wire. *)
+Theorem C04_sess_init_passive : forall (c : cfg) (ops : list op), c_passive c = true ->
+  let s := run c ops in
+  length (filter (fun f => match f with FMsg (MSessInit _ _ _ _ _) => true | _ => false end) (sent s))
+  = length (filter (fun f => match f with FMsg (MSessInit _ _ _ _ _) => true | _ => false end) (handled s))
+  /\ (forall c0 ka mru xm nid ext hs, handled s = c0 :: FMsg (MSessInit ka mru xm nid ext) :: hs ->
+      exists f1 ka' mru' xm' nid' ext' rest, sent s = f1 :: FMsg (MSessInit ka' mru' xm' nid' ext') :: rest).
+Proof. exact sess_init_passive. Qed.
+Print Assumptions C04_sess_init_passive.
+
+Theorem C04_legal_prefix_spec : forall (l : list frame),
+  legal_prefix l = true <-> exists l', legal (l ++ l') = true.
+Proof. exact (legal_prefix_spec true). Qed.
+Print Assumptions C04_legal_prefix_spec.
+
+Theorem C04_grammar_active_weak : forall (c : cfg) (ops : list op),
+  c_passive c = false -> legal_prefix_weak (sent (run c ops)) = true.
+Proof. exact C04_grammar_active_weak. Qed.
+Print Assumptions C04_grammar_active_weak.
+
+Theorem C04_grammar_active_partial : forall (c : cfg) (ops : list op),
+  c_passive c = false ->
+  (forall k, let s := run c (firstn k ops) in in_sess s = true -> 0 < seg_size s) ->
+  legal_prefix (sent (run c ops)) = true.
+Proof. exact C04_grammar_active_partial. Qed.
+Print Assumptions C04_grammar_active_partial.
+
+Theorem C04_grammar_passive_weak : forall (c : cfg) (ops : list op),
+  c_passive c = true -> peer_coop (handled (run c ops)) ->
+  legal_prefix_weak (sent (run c ops)) = true.
+Proof. exact C04_grammar_passive_weak. Qed.
+Print Assumptions C04_grammar_passive_weak.
+
+Theorem C04_grammar_passive_partial : forall (c : cfg) (ops : list op),
+  c_passive c = true -> peer_coop (handled (run c ops)) ->
+  (forall k, let s := run c (firstn k ops) in in_sess s = true -> 0 < seg_size s) ->
+  legal_prefix (sent (run c ops)) = true.
+Proof. exact C04_grammar_passive_partial. Qed.
+Print Assumptions C04_grammar_passive_partial.
+
+Theorem C04_pair_weak : forall (cA : cfg) (opsA : list op) (cB : cfg) (opsB : list op),
+  c_passive cA = false -> c_passive cB = true ->
+  (exists more, sent (run cA opsA) = handled (run cB opsB) ++ more) ->
+  legal_prefix_weak (sent (run cA opsA)) = true /\ legal_prefix_weak (sent (run cB opsB)) = true.
+Proof. exact C04_pair_weak. Qed.
+Print Assumptions C04_pair_weak.
+
+Theorem C04_pair_partial : forall (cA : cfg) (opsA : list op) (cB : cfg) (opsB : list op),
+  c_passive cA = false -> c_passive cB = true ->
+  (exists more, sent (run cA opsA) = handled (run cB opsB) ++ more) ->
+  (forall k, let s := run cA (firstn k opsA) in in_sess s = true -> 0 < seg_size s) ->
+  (forall k, let s := run cB (firstn k opsB) in in_sess s = true -> 0 < seg_size s) ->
+  legal_prefix (sent (run cA opsA)) = true /\ legal_prefix (sent (run cB opsB)) = true.
+Proof. exact C04_pair_partial. Qed.
+Print Assumptions C04_pair_partial.
+
+Theorem C04_seg_within_mru : forall (c : cfg) (ops : list op),
+  let s := run c ops in
+  (length (filter (fun f => match f with FMsg (MSessInit _ _ _ _ _) => true | _ => false end) (handled s)) <= 1)%nat ->
+  forall p, sessinit_peer s = Some p ->
+  Forall (fun f => match f with FMsg (MXferSeg _ _ _ data) => N.of_nat (length data) <= si_seg_mru p | _ => True end)
+         (sent s).
+Proof. exact seg_within_mru. Qed.
+Print Assumptions C04_seg_within_mru.
+
+Theorem C04_ack_echo : forall (c : cfg) (ops : list op),
+  let s := run c ops in
+  filter (fun f => match f with FMsg (MXferAck _ _ _) => true | _ => false end) (sent s)
+  = map FMsg (ack_spec (handled s)).
+Proof. exact ack_echo. Qed.
+Print Assumptions C04_ack_echo.
+
+(* ---- Non-vacuity ---- *)
+Definition exA : cfg := mkCfg false [100] 30 60 1000 2 None.
+Definition exB : cfg := mkCfg true [101] 30 60 1000 2 None.
+Definition CHo : bytes := encode_frame (FContact (mkContact MAGIC 4 0)).
+Definition exOpsA : list op :=
+  [OStart; ORx CHo; ORx (encode_frame (FMsg (MSessInit 30 2 1000 [101] []))); OSend [1;2;3]; OPQ; OTerm 0;
+   OSend [4]; OPQ; ORx (encode_frame (FMsg (MXferSeg 3 7 [] [9;9])))].
+Definition exOpsB : list op :=
+  [OStart; ORx CHo; ORx (encode_frame (FMsg (MSessInit 30 1000 18446744073709551615 [100] [])));
+   ORx (encode_frame (FMsg (MXferSeg 2 1 [0; 0; 1; 0; 8; 0; 0; 0; 0; 0; 0; 0; 3] [1;2])))].
+
+(* frames are sent and octets reach the wire *)
 Example C04_example_run :
-  let s := run (mkCfg false [100] 30 60 1000 500 None)
-               [OStart; OTxPump true 100;
-                ORx (encode_frame (FContact (mkContact MAGIC 4 0)));
-                OTxPump true 100] in
+  let s := run exA [OStart; OTxPump true 100; ORx CHo; OTxPump true 100] in
   length (sent s) = 2%nat /\ wire s <> [].
 Proof. vm_compute. split; [reflexivity | discriminate]. Qed.
+
+(* the positive-segment-size hypothesis holds on a run that sends SESS_TERM with a
+   transfer in progress, segments and an acknowledgement *)
+Example C04_partial_nonvacuous :
+  forallb (fun k => let s := run exA (firstn k exOpsA) in negb (in_sess s) || (0 <? seg_size s)) (seq 0 10) = true
+  /\ existsb (fun f => match f with FMsg (MSessTerm _ _) => true | _ => false end) (sent (run exA exOpsA)) = true
+  /\ existsb (fun f => match f with FMsg (MXferAck _ _ _) => true | _ => false end) (sent (run exA exOpsA)) = true
+  /\ legal_prefix (sent (run exA exOpsA)) = true.
+Proof. vm_compute. repeat split; reflexivity. Qed.
+
+(* a passive endpoint with a cooperating peer: one SESS_INIT handled, one sent;
+   the handled frames are a prefix of what the active endpoint exA sends *)
+Example C04_passive_nonvacuous :
+  c_passive exB = true
+  /\ length (handled (run exB exOpsB)) = 3%nat
+  /\ (exists more, sent (run exA exOpsA) = handled (run exB exOpsB) ++ more)
+  /\ length (filter (fun f => match f with FMsg (MSessInit _ _ _ _ _) => true | _ => false end)
+                    (handled (run exB exOpsB))) = 1%nat
+  /\ sessinit_peer (run exB exOpsB) <> None.
+Proof.
+  vm_compute. repeat split; try reflexivity; try discriminate.
+  eexists. reflexivity.
+Qed.
